@@ -110,6 +110,8 @@ pub struct XargsObs {
     pub cmd: Vec<String>,
     /// pass-through mode: what the real children logged (argv after LOG SCRIPT, cwd)
     pub child_log: Option<Vec<(Vec<Vec<u8>>, Vec<u8>)>>,
+    /// pass-through mode: bytes each real child could read from its standard input
+    pub child_stdin: Vec<usize>,
 }
 
 impl XargsObs {
@@ -202,6 +204,12 @@ pub fn run_xargs_with(sc: &XargsScenario, plan: &[ReadOp], ctx: &mut Ctx) -> Xar
         input: Some(stream),
         on_spawn: None,
     };
+    // real children: what is left on fd 0 of this process stands for xargs' own input stream
+    // (the arguments themselves come through the seam); a child must not be able to read it
+    let probe_stdin = matches!(sc.real, Some(RealKind::Simchild));
+    if probe_stdin {
+        crate::sys::stdin_marker(b"these bytes stand for xargs' own standard input\n");
+    }
     let argv = sc.argv_with(&cmd);
     let (status, stderr) = ctx.run_guarded(Box::new(world), move || {
         let refs: Vec<&str> = argv.iter().map(|s| s.as_str()).collect();
@@ -210,14 +218,28 @@ pub fn run_xargs_with(sc: &XargsScenario, plan: &[ReadOp], ctx: &mut Ctx) -> Xar
     let log = Rc::try_unwrap(log)
         .map(|c| c.into_inner())
         .unwrap_or_else(|rc| std::mem::take(&mut *rc.borrow_mut()));
-    let child_log = log_path.map(|p| parse_child_log(&std::fs::read(p).unwrap_or_default()));
+    let raw_log = log_path.map(|p| std::fs::read(p).unwrap_or_default());
+    let child_stdin = raw_log.as_deref().map(parse_child_stdin).unwrap_or_default();
+    let child_log = raw_log.map(|d| parse_child_log(&d));
+    if probe_stdin {
+        crate::sys::stdin_devnull();
+    }
     XargsObs {
         status,
         log,
         stderr,
         cmd,
         child_log,
+        child_stdin,
     }
+}
+
+/// The "STDIN n" line of every record of simchild's log.
+pub fn parse_child_stdin(data: &[u8]) -> Vec<usize> {
+    data.split(|b| *b == b'\n')
+        .filter_map(|l| l.strip_prefix(b"STDIN "))
+        .filter_map(|n| std::str::from_utf8(n).ok()?.parse().ok())
+        .collect()
 }
 
 /// Parse simchild's log: records of (args, cwd).
@@ -271,7 +293,12 @@ pub fn parse_child_log(data: &[u8]) -> Vec<(Vec<Vec<u8>>, Vec<u8>)> {
         }
         p += 4;
         let Some(cwd) = read_sized(&mut p) else { break };
-        let _ = read_line(&mut p); // END
+        // optional "STDIN n", then END
+        if let Some(l) = read_line(&mut p) {
+            if l.starts_with(b"STDIN ") {
+                let _ = read_line(&mut p);
+            }
+        }
         out.push((args, cwd));
     }
     out
